@@ -207,6 +207,15 @@ def execute(case, seed):
 
         # ------------------------------------------------------------ 2. check_and_repair
         node2 = g.clients[0].create_node_from_uri(vcap)
+        if case.get("warm"):
+            # through a READ-cap node object that has just been used to read the file (a long-running client
+            # keeps its node objects: "download, then check and repair" goes through the same DownloadNode)
+            node2 = g.clients[0].create_node_from_uri(prep["cap"])
+            b0, cons0 = lib_imm.read(g, node2)
+            g.quiesce()
+            obs["warm_read"] = "ok" if (b0 and b0[0][0] == "ok" and cons0.data() == prep["data"]) else "fail"
+            if obs["warm_read"] != "ok" and len(intact) >= k and not (set(cls.values()) - {"intact", "missing"}):
+                viol.append(("read-failed-with-k-intact-shares", "reading before the repair failed although %d intact shares exist; state=%r" % (len(intact), state)))
         b = g.wait(node2.check_and_repair(Monitor(), verify=verify))
         g.quiesce()
         after = g.share_files()
@@ -494,6 +503,13 @@ def all_cases(tier, seed):
         for st in subset_states(n, KINDS):
             for verify in (False, True):
                 cases.append({"file": fname, "S": n, "state": st, "verify": verify})
+    # the same through a read-cap node that has just read the file, for every state of deleted shares only
+    for fname in ("F24", "F35"):
+        n, k = FILES[fname]["n"], FILES[fname]["k"]
+        for st in subset_states(n, []):
+            if 0 < st.count("missing") <= n - k:
+                for verify in (False, True):
+                    cases.append({"file": fname, "S": n, "state": st, "verify": verify, "warm": True})
     if tier != "quick":
         for fname in ("F24", "F35"):
             n = FILES[fname]["n"]
